@@ -255,4 +255,25 @@ theorem step_pages [DecidableEq α] {st st' : St α} {id : Nat} {r : Rtx α} (in
           (fun hmem => inv.readersRefs (by rw [hph']; decide) (id, r) hm pn hmem ha')
   all_goals (repeat' split at h) <;> first | (injection h with h; subst h; exact fun _ _ => rfl) | cases h
 
+/-- a live read transaction stays in the state, the invariant holds, and no page it may read is rewritten -/
+theorem run_snapshot [DecidableEq α] {id : Nat} {r : Rtx α} : ∀ (post : List (Step α)) {st st' : St α}, Inv st → (id, r) ∈ st.rtx →
+    run true st post = .ok st' → (∀ s ∈ post, s ≠ .drop id) →
+    (id, r) ∈ st'.rtx ∧ Inv st' ∧ Agree st.disk st'.disk (refs st.disk r.idx)
+  | [], st, st', inv, hm, h, _ => by
+    simp only [run] at h; injection h with h; subst h; exact ⟨hm, inv, fun _ _ => rfl⟩
+  | s :: rest, st, st', inv, hm, h, hnd => by
+    simp only [run] at h
+    cases hs : step true st s with
+    | err e => rw [hs] at h; cases h
+    | panic m => rw [hs] at h; cases h
+    | ok st1 =>
+      rw [hs] at h
+      have hm1 := step_keeps s hs hm (hnd s (List.mem_cons_self ..))
+      have inv1 := step_inv inv s hs
+      have hag := step_pages inv s hs hm
+      obtain ⟨hm', inv', hag'⟩ := run_snapshot rest inv1 hm1 h (fun s' hs' => hnd s' (List.mem_cons_of_mem _ hs'))
+      refine ⟨hm', inv', fun pn hp => ?_⟩
+      rw [(leaves_frame r.idx hag).2] at hag'
+      rw [hag' pn hp, hag pn hp]
+
 end Nomt.BtTree
